@@ -3411,11 +3411,13 @@ Ops!(
     b"y*w*"       , [0x01, 0x5B        ], X, VEX_OP | AUTO_VEXL, AVX;
 ]
 "vcvtpd2dq" = [
-    b"yom*"       , [0x01, 0xE6        ], X, VEX_OP | AUTO_VEXL | PREF_F2, AVX;
+    b"yomo"       , [0x01, 0xE6        ], X, VEX_OP | PREF_F2, AVX;
+    b"yomh"       , [0x01, 0xE6        ], X, VEX_OP | WITH_VEXL | PREF_F2, AVX;
     b"yoy*"       , [0x01, 0xE6        ], X, VEX_OP | AUTO_VEXL | PREF_F2, AVX;
 ]
 "vcvtpd2ps" = [
-    b"yom*"       , [0x01, 0x5A        ], X, VEX_OP | AUTO_VEXL | PREF_66, AVX;
+    b"yomo"       , [0x01, 0x5A        ], X, VEX_OP | PREF_66, AVX;
+    b"yomh"       , [0x01, 0x5A        ], X, VEX_OP | WITH_VEXL | PREF_66, AVX;
     b"yoy*"       , [0x01, 0x5A        ], X, VEX_OP | AUTO_VEXL | PREF_66, AVX;
 ]
 "vcvtph2ps" = [
@@ -3456,7 +3458,8 @@ Ops!(
     b"r*yo"       , [0x01, 0x2D        ], X, VEX_OP | AUTO_REXW | PREF_F3, AVX;
 ]
 "vcvttpd2dq" = [
-    b"yom*"       , [0x01, 0xE6        ], X, VEX_OP | AUTO_VEXL | PREF_66, AVX;
+    b"yomo"       , [0x01, 0xE6        ], X, VEX_OP | PREF_66, AVX;
+    b"yomh"       , [0x01, 0xE6        ], X, VEX_OP | WITH_VEXL | PREF_66, AVX;
     b"yoy*"       , [0x01, 0xE6        ], X, VEX_OP | AUTO_VEXL | PREF_66, AVX;
 ]
 "vcvttps2dq" = [
